@@ -1,5 +1,5 @@
 """Layer C: WorkflowConductor.get_next_tasks — guard, remediation, rendering errors, retry delay,
-order, purity.  Ground companion over n <= 2 (quick) / 3 (thorough) staged entries with every leaf
+order, purity.  Ground companion over n <= 2 staged entries with every leaf
 symbolic; labelled *bounded* in the evidence (the loop over staged tasks is unrolled)."""
 import z3
 
@@ -66,7 +66,7 @@ class GetNextTasks(Unit):
             "get_next_tasks does not modify staged entries, status, errors (other than through the rendering-error path and the items initialisation of _evaluate_task_actions)"},
     }
     assumptions = [
-        "BOUNDED: loop over staged entries unrolled for n <= 2 (quick) / 3 (thorough) entries; ids over a 3-letter alphabet, routes 0..1; all flags and optional keys symbolic",
+        "BOUNDED: loop over staged entries unrolled for n <= 2 entries; ids over a 3-letter alphabet, routes 0..1; all flags and optional keys symbolic",
         "get_task: assumed contract 'may raise any Exception, else returns a task dict with the requested id/route' (weakest for C11)",
         "_evaluate_task_actions: its own contract (C12.eta.*) is used at the call: returns the same task with actions replaced by an order-preserving prefix selection",
         "log_error / request_workflow_status: recorded as ghost calls; request_workflow_status(failed) sets status to failed unless canceled (C02.pwe.fail_request)",
@@ -74,8 +74,9 @@ class GetNextTasks(Unit):
     trusted = ["z3 5.1", "pyvc interpreter"]
 
     def splits(self, tier):
-        ns = [0, 1, 2] + ([3] if tier == "thorough" else [])
-        return [(s, n) for s in WF_STATUSES for n in ns]
+        # n = 3 entries with every leaf symbolic does not terminate in hours (the unbounded unit below
+        # covers every length for the guard and for one generic iteration)
+        return [(s, n) for s in WF_STATUSES for n in (0, 1, 2)]
 
     def run_split(self, ctx, split):
         status_c, n = split
